@@ -60,17 +60,19 @@ var refusedImports = map[string]string{
 }
 
 type instrResult struct {
-	Files       []string          // relative paths written
-	Points      int               // number of preemption points inserted
-	PointSite   []string          // id -> "file:line"
-	Unsupported []string          // messages
-	SrcHash     string            // sha256 over the original sources
-	PkgDirs     []string          // package dirs relative to root
-	PerFile     map[string]int    // points per file
-	Swaps       map[string]int    // import path -> count
-	GoStmts     int               // rewritten go statements
-	ChanUse     []string          // informational
-	Extra       map[string]string // reserved
+	Files        []string          // relative paths written
+	Points       int               // number of preemption points inserted
+	PointSite    []string          // id -> "file:line"
+	Unsupported  []string          // messages
+	SrcHash      string            // sha256 over the original sources
+	PkgDirs      []string          // package dirs relative to root
+	PerFile      map[string]int    // points per file
+	Swaps        map[string]int    // import path -> count
+	GoStmts      int               // rewritten go statements
+	ChanUse      []string          // informational
+	Extra        map[string]string // reserved
+	MapRanges    int               // rewritten range-over-map statements
+	MapRangeNote string            // why the map-range seam is off, if it is
 }
 
 type instrumenter struct {
@@ -262,6 +264,26 @@ func instrumentTree(root, dst string, points bool) (*instrResult, error) {
 		return nil, err
 	}
 	sort.Strings(files)
+	// seam 4: which range statements iterate over maps? (go/types; optional)
+	var mr mapRanges
+	{
+		dirs := map[string]bool{}
+		for _, p := range files {
+			rel, _ := filepath.Rel(root, p)
+			dirs[filepath.Dir(rel)] = true
+		}
+		var dl []string
+		for d := range dirs {
+			dl = append(dl, d)
+		}
+		found, err := findMapRanges(root, dl)
+		if err != nil {
+			res.MapRangeNote = "map-range seam off: " + err.Error()
+		} else {
+			mr = found
+		}
+	}
+	nMapRange := 0
 	pkgDirs := map[string]bool{}
 	for _, p := range files {
 		rel, _ := filepath.Rel(root, p)
@@ -336,6 +358,19 @@ func instrumentTree(root, dst string, points bool) (*instrResult, error) {
 		}
 		before := in.nextID
 		goBefore := res.GoStmts
+		mrBefore := nMapRange
+		if mr != nil {
+			ast.Inspect(f, func(n ast.Node) bool {
+				if rs, ok := n.(*ast.RangeStmt); ok {
+					pos := in.fset.Position(rs.For)
+					if mr[fmt.Sprintf("%s:%d", pos.Filename, pos.Offset)] {
+						nMapRange++
+						rewriteMapRange(rs, nMapRange)
+					}
+				}
+				return true
+			})
+		}
 		if points {
 			for _, d := range f.Decls {
 				switch x := d.(type) {
@@ -355,7 +390,7 @@ func instrumentTree(root, dst string, points bool) (*instrResult, error) {
 				}
 			}
 		}
-		needRT := in.nextID > before || res.GoStmts > goBefore
+		needRT := in.nextID > before || res.GoStmts > goBefore || nMapRange > mrBefore
 		if needRT {
 			// add the runtime import
 			spec := &ast.ImportSpec{Name: ast.NewIdent("vsim__"), Path: &ast.BasicLit{Kind: token.STRING, Value: strconv.Quote(modPath + "/verifsim/rt")}}
@@ -386,6 +421,7 @@ func instrumentTree(root, dst string, points bool) (*instrResult, error) {
 		pkgDirs[filepath.Dir(rel)] = true
 	}
 	res.Points = in.nextID
+	res.MapRanges = nMapRange
 	res.PointSite = in.sites
 	res.SrcHash = fmt.Sprintf("%x", h.Sum(nil))
 	for d := range pkgDirs {
@@ -416,7 +452,7 @@ func withLineDirectives(src []byte, sites []string, origPath string) []byte {
 		if err != nil || id >= len(sites) {
 			continue
 		}
-		if i := strings.LastIndexByte(sites[id], ':'); i >= 0 {
+		if i := strings.LastIndexByte(sites[id], ':'); i >= 0 && sites[id][i+1:] != "0" {
 			pending = fmt.Sprintf("//line %s:%s\n", origPath, sites[id][i+1:])
 		}
 	}
